@@ -204,6 +204,14 @@ func c14statesChild(raw json.RawMessage, scratch string) {
 	r := wk.ChildRes("C14")
 	base := prng.New(a.Seed).Split(0xC14)
 	conf.Options = conf.Configuration{}
+	// one listener for the whole batch (a fresh port per state exhausts the ephemeral range in the thorough tier)
+	tcp, lerr0 := miniredis.NewServer().ListenTCP()
+	if lerr0 != nil {
+		r.Inconcl("cannot listen: " + lerr0.Error())
+		wk.ChildDone(r)
+		return
+	}
+	defer tcp.Close()
 	for i := a.Start; i < a.End; i++ {
 		rng := base.At(uint64(i))
 		st := genC14(rng, i)
@@ -211,15 +219,10 @@ func c14statesChild(raw json.RawMessage, scratch string) {
 		ex := reference(st)
 		for rep := 0; rep < 5; rep++ { // map iteration order inside LoadCheckpoint is random
 			srv := buildTarget(st)
-			tcp, err := srv.ListenTCP()
-			if err != nil {
-				r.Inconcl("cannot listen: " + err.Error())
-				break
-			}
+			tcp.SetServer(srv)
 			before := srv.Snapshot()
 			gotRun, gotOff, gotDB, lerr := checkpoint.LoadCheckpoint(0, st.Own, []string{tcp.Addr}, "auth", "", st.Name, false, false)
 			after := srv.Snapshot()
-			tcp.Close()
 			nb := map[bool]string{true: "yes", false: "no"}[st.Neighbor]
 			sig := func(o string) string { return "C14|outcome=" + o + "|prefix-neighbour=" + nb }
 			rep1 := map[string]interface{}{"state": st, "returned": fmt.Sprintf("runid=%q offset=%d db=%d err=%v", gotRun, gotOff, gotDB, lerr)}
